@@ -13,7 +13,25 @@ RUNS = {"quick": 3000, "thorough": 400000}
 STRATS = ["IterateSATGen", "RandomGen", "CMSGen", "UniGen"]
 
 
+def large_design_case(rs, tier):
+    """A design of realistic size for RandomGen: two crossed factors of 15-40 levels and two or three uncrossed 10-level
+    factors, i.e. 300-1200 trials and a solution count of one to eight thousand digits.  Whatever is done with such
+    numbers besides arithmetic (formatting, float conversion, indexing) must not make the call fail."""
+    lrng = W.stream(rs, "large-design")
+    la, lb = lrng.choice([(20, 15), (30, 30), (30, 30), (40, 30)])
+    facs = [{"id": "f0", "kind": "basic", "name": "A", "levels": [["a%d" % i, 1] for i in range(la)]},
+            {"id": "f1", "kind": "basic", "name": "B", "levels": [["b%d" % i, 1] for i in range(lb)]}]
+    for k in range(lrng.choice([2, 3, 3])):
+        facs.append({"id": "f%d" % (k + 2), "kind": "basic", "name": "U%d" % k, "levels": [["u%d_%d" % (k, i), 1] for i in range(10)]})
+    ast = {"factors": facs, "block": {"kind": "cross", "design": [f["id"] for f in facs], "crossing": ["f0", "f1"], "constraints": [], "rcc": True}}
+    knobs = common.draw_knobs(W.stream(rs, "knobs"))
+    knobs["rng_mode"] = "random"
+    return {"design": ast, "knobs": knobs, "n": lrng.choice([1, 2]), "strategies": ["RandomGen"], "large": True, "timeout": 120}
+
+
 def gen_case(rs, tier):
+    if W.stream(rs, "large").random() < 0.004:
+        return large_design_case(rs, tier)
     rng = W.stream(rs, "design")
     krng = W.stream(rs, "knobs")
     cfg = gen.swarm(krng, tier)
@@ -45,7 +63,7 @@ def features(ast, m):
 def run_case(case):
     ast = case["design"]
     try:
-        m = refsem.elaborate(ast)
+        m = refsem.elaborate(ast) if not case.get("large") else None
     except Exception:
         m = None
     with W.SimWorld(case["run_seed"], case["knobs"]) as w:
@@ -63,7 +81,10 @@ def run_case(case):
                 il = None
         for strat in case["strategies"]:
             w.rng.draws = 0
-            w.draw_cap = 4000
+            w.draw_cap = 4000 if not case.get("large") else 2_000_000
+            if case.get("large"):
+                w.rng.track = False
+                w.log_cap = 2000
             if il and strat == il["during"] and not second:
                 def other_caller():
                     w.peer_calls_cap = (w.peer_calls_cap or 0) + 50
@@ -71,7 +92,7 @@ def run_case(case):
                 second["armed"] = True
                 w.on_solve = other_caller
             try:
-                with common.time_limit(3):
+                with common.time_limit(3 if not case.get("large") else 90):
                     res, exc = common.synth(w, blk, strat, case["n"])
             except common.InnerTimeout:
                 w.log.append(("op", strat, "inner-timeout"))
